@@ -94,17 +94,22 @@ class Code3(Code2):
         for offset, line_number in self.co_lnotab:
             offset_diff = offset - prev_offset
             line_diff = line_number - prev_line_number
+            if line_diff < 0:
+                # FIXME: should warn about dropping off a line number;
+                # the unsigned format cannot express it.
+                continue
             prev_offset = offset
             prev_line_number = line_number
             while offset_diff >= 256:
                 co_lnotab += bytearray([255, 0])
                 offset_diff -= 255
+            # The rest of the offset goes with the first line increment;
+            # otherwise the line would change too early.
             while line_diff >= 256:
-                co_lnotab += bytearray([0, 255])
+                co_lnotab += bytearray([offset_diff, 255])
+                offset_diff = 0
                 line_diff -= 255
-            if 0 <= line_diff <= 256:
-                # FIXME: should warn about dropping off a line number
-                co_lnotab += bytearray([offset_diff, line_diff])
+            co_lnotab += bytearray([offset_diff, line_diff])
 
         self.co_lnotab = co_lnotab
 
